@@ -16,12 +16,11 @@ META = {
             'failure); a may-hold analysis proved sound for every control path computes the relation; the obligations held_before_acyclic, '
             'no_reentrant and flags_ok are re-proved by vm_compute over today\'s table, and server_no_deadlock follows for today\'s source. '
             'The real in-process server is stressed with seeded concurrent bursts (watched files incl. config events, open/change/close, the '
-            'handlers that need both locks) under a watchdog; the two bursts that hung the unrepaired server run first.',
+            'handlers that need both locks) under a watchdog; the two bursts that hung the unrepaired server run first. During that stress run a cfg-gated hook (verif_lock: tracing wrappers substituted for the tokio RwLock/Mutex) records every lock acquisition and release per task, and the runtime trace of every task must be a path of one of the regenerated lock programs (trace inclusion with early returns of inlined callees; a trace the table cannot explain breaks the tie) -- a dynamic validation of the lexical translator. A blocking call inside an async task (std mpsc recv, blocking_*) is outside the lock model: the translator emits it as Unknown, and the server is run on ONE runtime worker with its own file watcher, where a parked worker shows as a hang (this found the fs-notify task, since repaired).',
     "note": 'Trusted: Coq kernel; the LEXICAL translator lib/c28_locks.py (cross-checked on every run against a hand-reviewed table for 15 '
             'functions, and it fails loudly on anything it cannot classify) including its reviewed classification of non-lock awaits (timers and '
             'external IO complete by themselves; channel/cancellation/join waits = wait for a task; client responses = wait for the main loop); '
-            'the model of tokio\'s semaphore queueing; std::sync::Mutex sections (never held across an await) and blocking calls are outside the '
-            'model. Axioms: none.',
+            'the model of tokio\'s semaphore queueing; std::sync::Mutex sections (never held across an await) are outside the model; blocking calls are only detected lexically (recv / blocking_* not awaited) and by the one-worker probe. The runtime traces validate the translator on the executed paths only. Axioms: none.',
     "technique": "Coq proof (invariant + rank argument over all schedules of an LTS with FIFO fair locks; refutation schedules) + lock programs "
                  "regenerated from the source with table obligations by vm_compute + translator cross-check + watchdog stress of the real server",
 }
@@ -45,7 +44,10 @@ TRUSTED = [
     "modelling assumptions: a task waits only for tasks listed before it (acyclic waits-for: children / the main loop, which itself waits only for "
     "client input); the tasks awaited for client responses run the main loop LspServer::run; std::sync::Mutex (PendingTask) is never held "
     "across an await; blocking calls (std mpsc recv in the fs-notify task, file IO under a lock) take finite time",
-    "hook (cfg-gated, absent from normal builds): verif_serve, verif/task (canary dispatched by the main loop)",
+    "hooks (cfg-gated, absent from normal builds): verif_serve, verif/task (canary dispatched by the main loop), verif_lock (tracing wrappers "
+    "of tokio RwLock/Mutex imported by the crate's modules instead of tokio's when the cfg is on; events = granted acquisition / guard drop per tokio task id)",
+    "trace-inclusion matcher lib/c28_locks.py::Machine (python): graph of the structured program, frames for inlined callees with early "
+    "return, prefix acceptance; traces cut at 400 events per task",
 ]
 
 
@@ -159,10 +161,15 @@ def table_obligations(ck, res):
     return all(verdict)
 
 
-def search(ck, binpath, rounds):
+def search(ck, binpath, rounds, res):
     corpus = os.path.join(VERIF, "corpus", "C28", "hangs.jsonl")
+    trace_file = os.path.join(ck.work, "lock_trace.jsonl")
     rc, out, err = ck.run_bin(binpath, ["search", "--seed", ck.seed, "--n", rounds, "--dir", ck.work, "--corpus", corpus,
-                                        "--watchdog-ms", 20000], timeout=ck.scale(900, 3000))
+                                        "--watchdog-ms", 20000, "--trace-out", trace_file], timeout=ck.scale(900, 3000))
+    if res is not None and os.path.exists(trace_file):
+        trace_inclusion(ck, res, trace_file)
+    elif res is not None:
+        ck.tie_broken("the stress run produced no lock trace (hook verif_lock missing?)")
     got_summary = False
     for l in jlines(out):
         if not l.strip().startswith("{"):
@@ -179,6 +186,26 @@ def search(ck, binpath, rounds):
     return out
 
 
+def trace_inclusion(ck, res, trace_file):
+    """every runtime lock trace (per task) must be a path of a regenerated lock program (validates the translator)"""
+    events = [tuple(json.loads(l)) for l in open(trace_file) if l.strip()]
+    if not events:
+        ck.tie_broken("empty runtime lock trace")
+        return
+    ntasks, nev, bad, by = T.check_traces(res, events)
+    ck.cov["traces_validated_against_impl"] += ntasks - len(bad)
+    ck.cov["distribution"]["lock_traces"] = {"events_recorded": len(events), "tasks": ntasks, "events_checked": nev,
+                                              "unexplained_tasks": len(bad), "programs_that_explained_a_trace": len(by),
+                                              "main_loop_trace_checked": any(t == "main" for t, _, _ in events)}
+    ck.log("runtime lock traces: %d events, %d tasks, %d unexplained, %d distinct programs used" % (len(events), ntasks, len(bad), len(by)))
+    for task, tr, best, why in bad[:5]:
+        names = [("%s %s %s" % (e[0], T.LOCK_NAMES.get(e[1], e[1]), e[2] if len(e) > 2 else "")).strip() for e in tr[:40]]
+        ck.tie_broken("runtime lock trace of task %s is not a path of any regenerated lock program (%s; explained up to event %d): "
+                      "the translator lib/c28_locks.py misreads some function" % (task, why, best), json.dumps(names))
+    if ntasks:
+        ck.sample({"kind": "runtime lock trace (one task)", "events": [list(e) for e in events if e[0] == events[len(events) // 2][0]][:12]})
+
+
 def replay(ck, binpath, path):
     data = json.load(open(path))
     for v in data.get("violations", []):
@@ -192,6 +219,24 @@ def replay(ck, binpath, path):
                 vv = json.loads(l)
                 if "signature" in vv:
                     ck.violation(vv["signature"], vv["what"], vv["case"])
+
+
+def workers_probe(ck, binpath):
+    """a task that blocks a runtime worker thread for good (a blocking call inside an async task) is a liveness defect
+    that the lock model cannot see: run the server on ONE worker with the server-side file watcher"""
+    rc, out, err = ck.run_bin(binpath, ["workers", "--workers", 1, "--dir", ck.work, "--watchdog-ms", 15000], timeout=300)
+    got = False
+    for l in out.splitlines():
+        if l.strip().startswith("{"):
+            v = json.loads(l)
+            if "summary" in v:
+                got = True
+                ck.cov["distribution"]["one_worker_probe"] = v["summary"]
+                ck.count_case(("workers", 1), nontrivial=True)
+            elif "signature" in v:
+                ck.violation(v["signature"], v["what"], v["case"])
+    if rc != 0 or not got:
+        ck.tie_broken("harness c28 workers failed (rc=%s)" % rc, (err or "")[-1500:])
 
 
 def main(argv):
@@ -229,13 +274,15 @@ def main(argv):
         ck.deep = True
     # 4. stress of the real server (the bursts that hung the unrepaired server first)
     if bins and not ck.replay:
-        search(ck, bins["c28"], ck.scale(24, 400))
+        search(ck, bins["c28"], ck.scale(24, 400), res)
+        workers_probe(ck, bins["c28"])
     ck.finish(
         trusted_base=TRUSTED,
         rule="(a) one case per regenerated lock program (async fn or spawned block of emmylua_ls/src/{handlers,context,server,util} that locks or "
              "waits), non-trivial = it holds one lock while requesting another or violates a flag, distinct by (name, relation, flag); "
              "(b) stress rounds on the real in-process server: seeded bursts of 2-60 messages (watched-files notifications with 1-200 events and "
              "optional .emmyrc.json event, didOpen/didChange/didClose/didSave, ten request kinds incl. the seven that need both locks) sent back "
-             "to back, then canary requests under a 20 s watchdog; corpus bursts first; distinct by burst content",
+             "to back, then canary requests under a 20 s watchdog; corpus bursts first; distinct by burst content; the per-task runtime lock traces of that run "
+             "are counted in traces_validated_against_impl; (c) one run on a single runtime worker with the server-side file watcher",
         assumptions=["the stress run samples schedules (it validates the model and finds replays); the all-schedules claim is carried by the theorems "
                      "over the regenerated programs", "the translator is lexical (see trusted base)"])
